@@ -170,13 +170,15 @@ class Parser(object):
                 line, pos
             )
 
-    def _is_type_sizer_compatible(self, typename, visited=()):
+    def _is_type_sizer_compatible(self, typename, visited=(), definition=None):
         if typename in {type_ + width for type_ in 'ui' for width in ['8', '16', '32', '64']}:
             return True
         elif typename in visited:
             return False
-        elif typename in self.typedecls and isinstance(self.typedecls[typename], model.Typedef):
-            return self._is_type_sizer_compatible(self.typedecls[typename].type_name, visited + (typename,))
+        # a typedef of an included file may name a type of a file that is not included here: follow its definition
+        definition = self.typedecls.get(typename, definition)
+        if isinstance(definition, model.Typedef):
+            return self._is_type_sizer_compatible(definition.type_name, visited + (typename,), definition.definition)
         else:
             return False
 
